@@ -428,7 +428,8 @@ class Closure:
                 if mk not in self.memo:
                     try:
                         r = type_transform(dec(vj), T["_o"], options=make_options(self.o, MODES[0], dict({"no_data_loss": a, "no_explicit_cast": b},
-                                                                                         **({"addition": False} if a else {}))))
+                                                                                         **({"addition": False, "invalid_items": "throw", "invalid_keys": "throw",
+                                                                                             "invalid_values": "throw"} if a else {}))))
                         self.memo[mk] = enc(r)
                     except Exception:
                         self.memo[mk] = ("fail",)
@@ -1169,8 +1170,10 @@ def global_truth(case, io):
     owner = {k: f["name"] for f in decl for k in [f["name"], *(f.get("alias_from") or [])]}
     bykw = {owner.get(k, k) for k, _ in case["data"]}
     given = set(posnames[:len(case.get("args") or [])]) | bykw
-    # an omitted optional positional-only parameter is in parsed_keys too (func.py:676): it satisfies dependencies
-    given |= {f["name"] for f in decl if f.get("posonly") and not f["required"]}
+    # every positional-only parameter is in parsed_keys — given, defaulted, or (since fix 1d9950e) reported absent —
+    # and parse_data counts excluded keys as provided for the dependency check (base.py `dependant.update(excluded_keys)`);
+    # a missing required one is reported by its own AbsenceError, so no failing item is lost and both modes reject
+    given |= {f["name"] for f in decl if f.get("posonly")}
     failing = set(failing_items(io))
     exceed = bool(o.get("max_params")) and n > o["max_params"]
     lack = bool(o.get("min_params")) and n < o["min_params"]
